@@ -320,4 +320,10 @@ theorem roundMag_mono (n1 d1 n2 d2 : Nat) (hn1 : 0 < n1) (hd1 : 0 < d1) (hd2 : 0
   have := magBits_mono n1 d1 n2 d2 hn1 hd1 hd2 h
   omega
 
+/-- non-trivial instances: 1/3 ≤ 1/2; 1/10 and the spec of its shift (s = 56) -/
+example : (roundMag 1 3).toNat ≤ (roundMag 1 2).toNat :=
+  roundMag_mono 1 3 1 2 (by decide) (by decide) (by decide) (by decide)
+example : shiftOf 1 10 = 56 := by decide +kernel
+example : shiftOf 1 2 ≤ shiftOf 1 3 := shiftOf_antitone 1 3 1 2 (by decide) (by decide) (by decide) (by decide)
+
 end F64
